@@ -78,10 +78,11 @@ func relDirIDPresent(w *refgraph.World) bool {
 }
 
 func runC04(c *Ctx) {
-	c.Res.Rule = "random reference graphs (8 families: self loops, mutual and nested cycles through every schema keyword, cycles through parameters / responses / path items, cycles across documents) x id flavours {none, absolute, relative file, relative directory, fragment} x 0-2 injected faults (dangling or ill-typed targets, refused documents) x all four combinations of SkipSchemas and ContinueOnError x entry points {ExpandSpec, ExpandSchemaWithBasePath, ExpandSchema, ExpandParameterWithRoot, ExpandResponseWithRoot, ExpandParameter, ExpandResponse}; each call under a 20 s watchdog with panics recovered; oracle: a result or an error, never a panic or a hang, at most one loader request per document; the model's expander on the abstracted world must not run out of its proved fuel bound; non-trivial = cyclic graph or fault present; distinct by (world, ids, faults, options, entry)"
+	c.Res.Rule = "random reference graphs (8 families: self loops, mutual and nested cycles through every schema keyword, cycles through parameters / responses / path items, cycles across documents) x id flavours {none, absolute, relative file, relative directory, fragment} x 0-2 injected faults (dangling or ill-typed targets, refused documents) x all four combinations of SkipSchemas and ContinueOnError plus EVERY reference graph on up to 3 nodes of one kind (schemas as aliases and under keywords, parameters, responses, path items; self loops, 2- and 3-cycles, chains) x six spelling classes of the root location (file, http, upper-case host, explicit default ports) x option combinations; x entry points {ExpandSpec, ExpandSchemaWithBasePath, ExpandSchema, ExpandParameterWithRoot, ExpandResponseWithRoot, ExpandParameter, ExpandResponse}; each call under a 20 s watchdog with panics recovered; oracle: a result or an error, never a panic or a hang, at most one loader request per document; the model's expander on the abstracted world must not run out of its proved fuel bound; non-trivial = cyclic graph or fault present; distinct by (world, ids, faults, options, entry)"
 	n := c.N(240, 6000)
 	fams := families(c.Thorough())
 	corpusC04(c)
+	c04Exhaustive(c)
 	var jobs []childJob
 	defer func() { runChildJobs(c, jobs) }()
 	for i := 0; i < n; i++ {
@@ -323,4 +324,124 @@ func corpusC04(c *Ctx) {
 	default:
 		_ = r
 	}
+}
+
+// ---- exhaustive small graphs (C04: "every reference graph over a bounded number of nodes") ----
+
+// c04SmallWorlds enumerates every reference graph on up to 3 nodes of one kind (each node refers to no node or to
+// any node of its kind, itself included), for schemas (reference as the whole node, or under a keyword),
+// parameters, responses and path items, in one root document that also uses node 0 from an operation.
+func c04SmallWorlds(root string) []*refgraph.World {
+	var out []*refgraph.World
+	for _, kind := range []string{"schema", "schema-nested", "parameter", "response", "pathItem"} {
+		for k := 1; k <= 3; k++ {
+			total := 1
+			for i := 0; i < k; i++ {
+				total *= k + 1
+			}
+			for code := 0; code < total; code++ {
+				targets := make([]int, k) // k = no reference
+				x := code
+				for i := 0; i < k; i++ {
+					targets[i] = x % (k + 1)
+					x /= k + 1
+				}
+				section, sec := wire.ObjV(), ""
+				for i := 0; i < k; i++ {
+					name := fmt.Sprintf("n%d", i)
+					var v wire.V
+					ref := func(s string) wire.V { return wire.ObjV(wire.M("$ref", wire.StrV(s+fmt.Sprintf("n%d", targets[i])))) }
+					switch kind {
+					case "schema":
+						sec = "definitions"
+						if targets[i] == k {
+							v = wire.ObjV(wire.M("type", wire.StrV("string")))
+						} else {
+							v = ref("#/definitions/")
+						}
+					case "schema-nested":
+						sec = "definitions"
+						v = wire.ObjV(wire.M("type", wire.StrV("object")))
+						if targets[i] != k {
+							v = v.Set("properties", wire.ObjV(wire.M("x", ref("#/definitions/")))).Set("items", ref("#/definitions/"))
+						}
+					case "parameter":
+						sec = "parameters"
+						if targets[i] == k {
+							v = wire.ObjV(wire.M("name", wire.StrV(name)), wire.M("in", wire.StrV("query")), wire.M("type", wire.StrV("string")))
+						} else {
+							v = ref("#/parameters/")
+						}
+					case "response":
+						sec = "responses"
+						if targets[i] == k {
+							v = wire.ObjV(wire.M("description", wire.StrV(name)))
+						} else {
+							v = ref("#/responses/")
+						}
+					case "pathItem":
+						sec = "x-pathItems"
+						if targets[i] == k {
+							v = wire.ObjV(wire.M("get", wire.ObjV(wire.M("responses", wire.ObjV(wire.M("200", wire.ObjV(wire.M("description", wire.StrV(name)))))))))
+						} else {
+							v = ref("#/x-pathItems/")
+						}
+					}
+					section = section.Set(name, v)
+				}
+				op := wire.ObjV(wire.M("responses", wire.ObjV(wire.M("200", wire.ObjV(wire.M("description", wire.StrV("ok")))))))
+				paths := wire.ObjV()
+				switch kind {
+				case "schema", "schema-nested":
+					op = op.Set("parameters", wire.ArrV(wire.ObjV(wire.M("name", wire.StrV("b")), wire.M("in", wire.StrV("body")), wire.M("schema", wire.ObjV(wire.M("$ref", wire.StrV("#/definitions/n0")))))))
+					paths = paths.Set("/a", wire.ObjV(wire.M("get", op)))
+				case "parameter":
+					op = op.Set("parameters", wire.ArrV(wire.ObjV(wire.M("$ref", wire.StrV("#/parameters/n0")))))
+					paths = paths.Set("/a", wire.ObjV(wire.M("get", op)))
+				case "response":
+					op = op.Set("responses", wire.ObjV(wire.M("200", wire.ObjV(wire.M("$ref", wire.StrV("#/responses/n0"))))))
+					paths = paths.Set("/a", wire.ObjV(wire.M("get", op)))
+				case "pathItem":
+					paths = paths.Set("/a", wire.ObjV(wire.M("$ref", wire.StrV("#/x-pathItems/n0"))))
+				}
+				doc := wire.ObjV(wire.M("swagger", wire.StrV("2.0")), wire.M("info", wire.ObjV(wire.M("title", wire.StrV("t")), wire.M("version", wire.StrV("1")))),
+					wire.M("paths", paths), wire.M(sec, section))
+				out = append(out, &refgraph.World{Root: root, Docs: map[string]wire.V{root: doc}})
+			}
+		}
+	}
+	return out
+}
+
+// c04Exhaustive runs the small graphs under every spelling class of the root location and every option
+// combination (quick: options rotate over the graphs; thorough: the full product), in killable children.
+func c04Exhaustive(c *Ctx) {
+	type loc struct{ root, base string }
+	locs := []loc{
+		{"file:///v/r/root.json", ""},
+		{"file:///v/r/root.json", "/v/r/./sub/../root.json"},
+		{"http://h.example/api/root.json", ""},
+		{"http://h.example/api/root.json", "HTTP://H.Example/api/root.json"},
+		{"http://h.example/api/root.json", "http://h.example:80/api/root.json"},
+		{"https://h.example/api/root.json", "https://H.example:443/api/root.json"},
+	}
+	var jobs []childJob
+	n := 0
+	for _, l := range locs {
+		for gi, w := range c04SmallWorlds(l.root) {
+			for oi := 0; oi < 4; oi++ {
+				if !c.Thorough() && oi != (gi+n)%4 {
+					continue
+				}
+				call := entryCall{Entry: "spec", Skip: oi&1 == 1, Cont: oi&2 == 2, Base: l.base}
+				cs := map[string]interface{}{"world": worldJSON(w), "call": call, "family": "exhaustive-small"}
+				c.Count(fmt.Sprint(worldJSON(w), call), true)
+				c.Hit("exhaustive-small")
+				jobs = append(jobs, childJob{hc: histCall{World: worldJSON(w), Call: call}, cs: cs})
+			}
+		}
+		n++
+	}
+	runChildJobs(c, jobs)
+	c.Res.Exhaustive = c.Thorough()
 }
